@@ -78,6 +78,8 @@ class Gen:
         for i in range(nrules):
             vs = VARS[:rng.choice([2, 3])]
             self.add(f'rule-{i}', [self.term(1, vs) for _ in range(rng.choice([1, 2]))], self.term(2, vs))
+        for label in self.order:
+            self.add_inherited_dv(label)
 
     def add(self, label, hyps, concl):
         used = set().union(tvars(concl), *[tvars(h) for h in hyps]) & set(VARS)
@@ -158,8 +160,6 @@ class Gen:
         consts = ['#Pattern', '|-', '(', ')'] + [c for c, _ in self.constr] + (['#Notation'] if self.sugar or self.quoted else []) + \
                  (['#Symbol'] + [q + '-symbol' for q in self.quoted] if self.quoted else [])
         out = ['$c ' + ' '.join(consts) + ' $.', '$v ' + ' '.join(VARS) + ' $.']
-        if self.global_d:        # growing top-level disjointness lists
-            out += ['$d ph0 ph1 $.', '$d ph2 ph3 $.', '$d ph0 ph1 ph2 ph3 $.']
         out += [f'{v}-is-pattern $f #Pattern {v} $.' for v in VARS]
         for k, q in enumerate(self.quoted):
             out += [f'string-literal-{k}-is-symbol $a #Symbol {q}-symbol $.', f'string-literal-{k}-is-pattern $a #Pattern {q} $.',
@@ -172,11 +172,21 @@ class Gen:
                 out.append(f'{c[1:]}-is-sugar $a #Notation ' + show((c,) + tuple(VARS[:a])) + ' ' + show(self.sugar[c][1]) + ' $.')
         return out
 
+    def global_d_lines(self):
+        """growing top-level disjointness lists; they are placed AFTER the syntax axioms and the proof rules (a top-level $d
+        restricts every later assertion that mentions both variables - the constructors must stay unrestricted)"""
+        return ['$d ph0 ph1 $.', '$d ph2 ph3 $.', '$d ph0 ph1 ph2 ph3 $.'] if self.global_d else []
+
+    def add_inherited_dv(self, label):
+        if self.global_d and not label.startswith('proof-rule'):
+            vs = self.assertions[label][0]
+            self.dv[label] = sorted(set(self.dv.get(label, [])) | {(a, b) for i, a in enumerate(vs) for b in vs[i + 1:]})
+
     def assertion_text(self, label, kw='$a', proof=None):
         vs, hyps, concl = self.assertions[label]
         tail = f' $= {proof} $.' if proof is not None else ' $.'
         dvl = [f'   $d {a} {b} $.' for a, b in self.dv.get(label, [])]
-        if kw == '$p' and self.disjoint and self.r.random() < 0.6:      # a dummy variable: occurs only in the $d
+        if self.disjoint and self.r.random() < (0.6 if kw == '$p' else 0.35):      # a dummy variable: occurs only in the $d
             dummy = [x for x in VARS if x not in vs]
             if dummy and vs:
                 dvl.append(f'   $d {vs[0]} {dummy[-1]} $.')
@@ -261,18 +271,36 @@ def tree_size(t):
     return 1 + sum(tree_size(c) for c in t[1])
 
 
+def proof_vars(pf):
+    """variables whose floating hypothesis is used somewhere in the proof tree"""
+    out = {pf[0][:-len('-is-pattern')]} if pf[0].endswith('-is-pattern') and pf[0][:-len('-is-pattern')] in VARS else set()
+    for c in pf[1]:
+        out |= proof_vars(c)
+    return out
+
+
+def uses_dv(pf, g):
+    return bool(g.dv.get(pf[0])) or any(uses_dv(c, g) for c in pf[1])
+
+
 def database(rng, nlemmas=2, zmode='random', deep=False, **kw):
     """returns (text, [lemma labels], {label: statement text})"""
     g = Gen(rng, **kw)
     lines = g.preamble()
     for label in g.order:
         lines.append(g.assertion_text(label))
+        if label == 'proof-rule-mp':
+            lines += g.global_d_lines()
     lemmas = []
     facts = g.derive(rng.randrange(6, 14) if not deep else rng.randrange(14, 30))
     facts = [f for f in facts if len(tvars(f[0]) & set(VARS)) <= 3]
     rng.shuffle(facts)
     if deep:
         facts.sort(key=lambda f: -tree_size(f[1]))
+    if g.disjoint and rng.random() < 0.7:
+        # prefer theorems whose proof applies a $d-restricted assertion to a DUMMY variable (one that does not occur in
+        # the statement): the disjointness such a proof needs mentions a variable the statement does not
+        facts.sort(key=lambda f: -int(uses_dv(f[1], g) and bool(proof_vars(f[1]) - tvars(f[0]))))
     for i, (t, pf) in enumerate(facts[:nlemmas]):
         label = f'lemma-{i}' if i < nlemmas - 1 and i < len(facts[:nlemmas]) - 1 else 'goal'
         mand = [f'{v}-is-pattern' for v in VARS if v in tvars(t)]
@@ -280,9 +308,38 @@ def database(rng, nlemmas=2, zmode='random', deep=False, **kw):
         # break the letter string over lines like metamath.exe does
         proof = '( ' + ' '.join(listed) + (' ' if listed else '') + ') ' + ' '.join(letters[j:j + 30] for j in range(0, max(len(letters), 1), 30))
         g.add(label, [], t)
+        g.add_inherited_dv(label)
         lines.append(g.assertion_text(label, '$p', proof))
         lemmas.append(label)
         # later lemmas may use earlier ones: extend the pool
         facts2 = g.derive(3)
         facts += facts2
     return '\n'.join(lines) + '\n', lemmas
+
+
+def dummy_database(rng, zmode='none'):
+    """a theorem whose proof needs a disjointness that mentions DUMMY variables (variables of the proof that do not occur in
+    the statement): ax-d carries $d x y, ax-e eliminates x and y, goal is |- z; the $d lists are top-level"""
+    g = Gen(rng, nconstr=rng.choice([1, 2]), naxioms=rng.choice([1, 2]), nrules=0, nested=rng.random() < 0.5, disjoint=True)
+    g.global_d = True
+    x, y, z = rng.sample(VARS[:3], 3)
+    c = rng.choice([c for c, a in g.constr if a == 2] or ['\\imp'])
+    body = (c, x, ('\\imp', y, x))
+    g.add('ax-d', [], body); g.dv['ax-d'] = [(x, y)]
+    g.add('ax-e', [], ('\\imp', body, z))
+    lines = g.preamble()
+    for l in g.order:
+        lines.append(g.assertion_text(l))
+        if l == 'proof-rule-mp':
+            lines += g.global_d_lines()
+    sg = {x: x, y: y, z: rng.choice([z, ('\\imp', z, z)])}
+    pf_d, c_d = g.apply('ax-d', sg, [])
+    pf_e, c_e = g.apply('ax-e', sg, [])
+    pf, concl = g.apply('proof-rule-mp', {'ph0': c_d, 'ph1': c_e[2]}, [pf_e, pf_d])
+    mand = [f'{v}-is-pattern' for v in VARS if v in tvars(concl)]
+    listed, letters = compress(pf, mand, zmode, rng)
+    proof = '( ' + ' '.join(listed) + (' ' if listed else '') + ') ' + letters
+    g.add('goal', [], concl)
+    g.disjoint = False        # no extra local $d on the theorem: it relies on the top-level lists
+    lines.append(g.assertion_text('goal', '$p', proof))
+    return '\n'.join(lines) + '\n', ['goal']
